@@ -50,10 +50,10 @@ P = {
          "SortView._iternocache (real AST) for ALL table and buffer sizes: the in-memory path is taken only when the whole source was read and yields each sorted row once; by an inductive invariant on `while rows` the chunking conserves rows (dumped + buffered = read; every chunk non-empty and <= buffersize; at the end every data row dumped exactly once, incl. buffersize == nrows and nrows+-1); every chunk is sorted with the one key function and the caller's reverse flag; buffersize=None means config.sort_buffersize; the cache is never published while chunks are being written."
          ' Bounded stand-in for the rest: ' 'sort/mergesort vs sorted(enumerate(rows)) under the C04 reference ordering for all small tables x key forms x reverse x buffersize 1..n+1,None x cache x passes; mergesort == sort(cat).',
          TB + ' T1 (list.sort stable permutation), T5 (heapq.merge / shortlist merge) and T7 (pickle) trusted: the k-way merge and stability across chunks are decided by the bounded check only.', TECH_D),
- 'C06': (True, 'exploration',
-         'All pairs of small tables (None/mixed/compound keys, ragged, header-only, prefixes, missing) for the seven join operators vs a nested-loop relational reference: header, multiset, key order.'
-         ' Proved sub-claim (does not decide the property on its own): ' 'Row-assembly half, proved for ALL groups of rows (real closure `joinrows` of iterjoin, taken from the executed prologue): unmatched left rows padded with `missing` per right non-key field; unmatched right rows = `missing` in every left position with the key copied to the LEFT key position, then the right non-key cells; matched groups = the full cross product, left-major, left row then right non-key cells; header = left fields + right non-key fields. Zero-row instances of iterjoin/iterantijoin/iterlookupjoin (C20) and iterstack (the squaring-up) are proved too. WHICH groups the merge loop pairs (equal keys, each row with the right multiplicity, ascending key order) is NOT proved.',
-         BNOTE + ' The merge loops over itertools.groupby are outside the deductive reach that was built; single key field in the proved part.', TECH_D),
+ 'C06': (True, 'proof',
+         'Merge half at GROUP level for all pairs of tables (unbounded numbers of groups): the `while True` loops of iterjoin (inner / left / right / outer), iterlookupjoin and iterantijoin are proved with an inductive invariant (all earlier left groups < current right key and vice versa; loop variables denote the current groups), per-iteration settle obligations (key(L) < key(R): L has NO partner anywhere and is emitted alone iff its side is outer; symmetric; otherwise the keys are EQ and exactly that pair is emitted / dropped for antijoin; the smaller side advances) and an exit judge for each of the six StopIteration exits (a fetched unsettled group is flushed exactly when its side is outer, a settled one never again, remaining groups of an outer side are emitted once, alone, and have no partner). Row-assembly half for all groups: joinrows (padding with `missing`, key copy to the LEFT key positions, cross product left-major) and the header; squaring up (iterstack, C12); zero-row instances (C20). Composition: every group is settled exactly once, in ascending key order.'
+         ' Bounded stand-in for the rest (crossjoin, compound keys, prefixes, end-to-end vs a nested-loop reference): All pairs of small tables (None/mixed/compound keys, ragged, header-only, prefixes, missing) for the seven join operators vs a nested-loop relational reference: header, multiset, key order.',
+         TB + ' T2 itertools.groupby at group level + the sort precondition (group keys strictly ascending); Comparable through its contract (C04); joinrows replaced by the event it stands for in the merge proofs (its own contract is C06.joinrows.*); single key field in the proved part.', TECH_D),
  'C07': (True, 'proof',
          "The probe loops of iterhashjoin, iterhashleftjoin and iterhashlookupjoin (real AST) are proved for ALL streamed tables and ALL lookup dictionaries (symbolic map through the contract of lookup/lookupone) by the nested stateless-body rule: a streamed row with key k yields one row per partner in lookup[k], each = the row followed by the partner's non-key cells (hashlookupjoin: the first partner only); a key that is absent yields nothing / the row padded with `missing`; hence output in the streamed side's order with the relational multiset."
          ' Bounded stand-in for the rest (lookup family, right/anti joins, compound keys, cache, agreement with the merge joins): ' 'Hash joins vs the relational reference and vs their sort-merge twins, cache on/off, two passes, streamed-side order; lookup family vs a reference dict incl. strict.',
